@@ -108,8 +108,8 @@ the enclosing function; after inlining, the inner `?` returns the converted erro
 the value of the block is unwrapped by the call-site `?`, which is kept.  Side conditions (otherwise RewriteError -> undecided):
 every use of `f` inside the block that defines it is a direct call immediately followed by `?`; `f` is not used outside that
 block (a later, separate `let f = ...` in another block is a different closure and is handled on its own); the body contains
-no `return` and does not mention `f`; parameters are plain `ident[: Type]` (the parameter type annotations only steer inference and are dropped, an explicit
-return type is kept as the annotated type of the block's value: rustc re-checks the inlined text against the call arguments); no identifier the
+no `return` and does not mention `f`; parameters are plain `ident[: Type]` (parameter type annotations are kept on the `let`s that bind the arguments — a coercion site
+like the call —, an explicit return type is kept as the annotated type of the block's value: rustc re-checks the inlined text against the call arguments); no identifier the
 body uses freely is re-bound between definition and the end of the block.  Difference that remains: the error conversion
 path (`e -> closure error type -> function error type` becomes `e -> function error type`); both are `From` conversions
 chosen by rustc, and no contract in the units speaks about `Err` values.
@@ -212,7 +212,9 @@ def r9q_closure_inline_try(text, log):
         args = [span_text(text, st, a, b) for a, b in split_args(st, o, c)]
         if len(args) != len(params):
             raise RewriteError("R9q: call of `%s` with %d arguments, closure has %d parameters" % (name, len(args), len(params)))
-        parts = ["let %s%s = %s;" % ("mut " if m else "", p, a) for (p, m, ty), a in zip(params, args)]
+        # a parameter's type annotation is kept on the `let`: it is a coercion site, so an argument like `r[0]` of type `&mut R`
+        # is reborrowed exactly as it is when passed to the closure (without it the `let` would move out of the array)
+        parts = ["let %s%s%s = %s;" % ("mut " if m else "", p, (": " + ty) if ty else "", a) for (p, m, ty), a in zip(params, args)]
         if ret_ty:
             # keep the explicit return type as the type of the block's value (it fixes the error type for inference)
             rep = "({ " + " ".join(parts) + " let vx_%s_r: %s = { %s }; vx_%s_r })" % (name, ret_ty, inner.strip(), name)
